@@ -1,6 +1,6 @@
 (* Properties_C06.v — C06: only the library's own, still-unreaped child is signalled or reaped.
    Theorems only. *)
-From Verif Require Import Lib WorldSpec WorldSpec2 LibSpec WaitSpec ParentSpec StartSpec.
+From Verif Require Import Lib WorldSpec WorldSpec2 LibSpec WaitSpec ParentSpec StartSpec FdSpec HeapSpec MemSpec.
 From Coq Require Import Lia.
 Local Open Scope Z_scope.
 
@@ -91,6 +91,20 @@ Proof.
   repeat split; reflexivity.
 Qed.
 Print Assumptions C06_not_started_rejected.
+
+(* THE PID A HANDLE HOLDS, ANY HISTORY, ANY FAULT PLAN: after any sequence of calls on a handle made
+   by reproc_new (failing starts, successful starts, restarts, waits, stop sequences ...), either the
+   handle is still not started and holds the invalid marker (and terminate / kill / wait / stop
+   make no system call at all: C06_not_started_rejected), or the pid it holds -- the only pid its
+   kill and waitpid calls ever name (C06_*_targets) -- is strictly greater than the caller's own
+   pid: positive, never 0 or -1 (no process-group or broadcast target), never the caller itself *)
+Theorem C06_history_pid : forall (ck : rp -> MW unit) ops p w p' w',
+  WorldSpec2.wf w -> 0 <= w_cur w -> 0 < w_next_blk w -> (forall q, kp (w_cur w) (ck q)) -> fresh_handle p ->
+  run_hops ck p ops w = Ret p' w' ->
+  (h_status p' = STATUS_NOT_STARTED -> h_handle p' = PROCESS_INVALID) /\
+  (h_status p' <> STATUS_NOT_STARTED -> w_cur w < h_handle p' /\ 0 < h_handle p' /\ h_handle p' <> w_cur w').
+Proof. exact history_pid. Qed.
+Print Assumptions C06_history_pid.
 
 Example C06_ex : api_ev (rp_with_handle 4242 (rp_new 1))
   {| e_pid := 1; e_call := CKill; e_args := [4242; 15]; e_sargs := []; e_ret := 0; e_outs := []; e_errno := 0; e_time := 0; e_blocked := 0 |}.
